@@ -45,6 +45,10 @@ struct IdSeq {  // ids = 0,1,2,... (as if inserted without explicit ids)
   static unsigned id(unsigned k) { return k; }
   static const char* name() { return "seq"; }
 };
+struct IdPos {  // id = position at insertion time (identifiers reused after removals); boundary-type matrices only
+  static unsigned id(unsigned) { return 0; }
+  static const char* name() { return "pos"; }
+};
 struct IdGap {  // strictly increasing ids with gaps, not starting at 0
   static unsigned id(unsigned k) { return 3 * k + 2; }
   static const char* name() { return "gap"; }
@@ -73,9 +77,25 @@ struct PmModel {
   static constexpr bool can_remove_maximal =
       Opt::has_vine_update && Opt::has_removable_columns &&
       (!is_chain || (Opt::has_map_column_container && (Opt::has_column_pairings || !pos_indexed)));
-  struct Cell { unsigned id; int dim; std::vector<std::pair<unsigned, int>> bd; };  // bd in ids
+  struct Cell { unsigned uid; unsigned id; int dim; std::vector<std::pair<unsigned, int>> bd; };  // bd in uids (harness-internal, never reused)
+  unsigned next_uid = 0;
+  int pos_of_uid(unsigned uid) const {
+    for (std::size_t i = 0; i < cells.size(); ++i) if (cells[i].uid == uid) return static_cast<int>(i);
+    return -1;
+  }
   std::unique_ptr<M> m;
   std::vector<Cell> cells;   // in current filtration order
+  // Row labels.  Chain matrices label rows by the cell's IDIdx, which follows the cell.  Boundary-type matrices
+  // with vine updates exchange the two rows together with the two columns, so a row label stays attached to its
+  // POSITION ("updated IDIdx indices which got potentially swapped by a vine swap", Matrix.h): the label of the
+  // row of the cell now at position p is the identifier given to the p-th inserted cell still present.
+  std::vector<unsigned> rowids;
+  unsigned row_label(int pos) const { return is_chain ? cells[pos].id : rowids[pos]; }
+  int pos_of_row(unsigned r) const {
+    if (is_chain) return pos_of_id(r);
+    for (std::size_t i = 0; i < rowids.size(); ++i) if (rowids[i] == r) return static_cast<int>(i);
+    return -1;
+  }
   unsigned next = 0;         // fresh id counter (never reused)
   bool final_ = true;
   bool barcode_read = false;
@@ -121,26 +141,42 @@ struct PmModel {
     std::string op(act.at("op").as_string());
     bj::object out;
     if (op == "insert") {
+      if constexpr (is_ru && Opt::has_vine_update && id_indexed) {
+        // identifier-indexed RU matrix with vine updates: identifiers follow the cells while row labels stay with
+        // the positions, and a new identifier must be both fresh and equal to its position; once a cell in the
+        // middle was removed no such identifier exists any more
+        for (std::size_t i = 0; i < cells.size(); ++i) if (cells[i].id >= cells.size()) { out["inapplicable"] = true; return out; }
+      }
       Cell c;
-      c.id = Ids::id(next++);
+      c.uid = next_uid++;
+      if constexpr (std::is_same_v<Ids, IdPos>) { c.id = static_cast<unsigned>(cells.size()); ++next; }
+      else c.id = Ids::id(next++);
       c.dim = static_cast<int>(act.at("d").to_number<std::int64_t>());
-      for (auto& e : act.at("bd_set").as_array())
-        c.bd.emplace_back(cells[e.as_object().at("x").to_number<std::int64_t>()].id, static_cast<int>(e.as_object().at("c").to_number<std::int64_t>()));
+      std::vector<std::pair<unsigned, int>> arg;  // (row label, coefficient), increasing labels
+      for (auto& e : act.at("bd_set").as_array()) {
+        int fp = static_cast<int>(e.as_object().at("x").to_number<std::int64_t>());
+        int co = static_cast<int>(e.as_object().at("c").to_number<std::int64_t>());
+        c.bd.emplace_back(cells[fp].uid, co);
+        arg.emplace_back(row_label(fp), co);
+      }
       std::sort(c.bd.begin(), c.bd.end());
+      std::sort(arg.begin(), arg.end());
       if constexpr (Opt::is_z2) {
         std::vector<unsigned> b;
-        for (auto& e : c.bd) b.push_back(e.first);
+        for (auto& e : arg) b.push_back(e.first);
         m->insert_boundary(c.id, b, c.dim);
       } else {
         std::vector<std::pair<unsigned, unsigned>> b;
-        for (auto& e : c.bd) b.emplace_back(e.first, static_cast<unsigned>(e.second));
+        for (auto& e : arg) b.emplace_back(e.first, static_cast<unsigned>(e.second));
         m->insert_boundary(c.id, b, c.dim);
       }
+      rowids.push_back(c.id);
       cells.push_back(c);
     } else if (op == "remove_last") {
       if constexpr (Opt::has_removable_columns && (!is_chain || Opt::has_map_column_container || !Opt::has_vine_update)) {
         m->remove_last();
         cells.pop_back();
+        rowids.pop_back();
       }
     } else if (op == "vine_swap") {
       if constexpr (Opt::has_vine_update) {
@@ -155,7 +191,10 @@ struct PmModel {
           unsigned c1 = col_index(i), c2 = col_index(i + 1);
           unsigned r = m->vine_swap(c1, c2);
           // the returned MatIdx must be one of the two columns; which one depends on kept/exchanged
+          // the returned index designates the column now at the later position: it must be one of the two columns
+          // and, read back through get_pivot, the cell the specification puts at position i+1 (the former cell i)
           okret = (r == c1 || r == c2);
+          if constexpr (!id_indexed) { if (okret && m->get_pivot(r) != cells[i].id) okret = false; }
           out["ret"] = static_cast<std::int64_t>(r == c1 ? 1 : (r == c2 ? 2 : 0));
         }
         out["ret_ok"] = okret;
@@ -180,6 +219,7 @@ struct PmModel {
           }
         }
         cells.erase(cells.begin() + i);
+        rowids.pop_back();
       }
     } else {
       out["exception"] = "unknown op " + op;
@@ -196,7 +236,7 @@ struct PmModel {
     for (std::size_t r0 = 0; r0 < content.size(); ++r0) {
       int val = static_cast<int>(content[r0]);
       if (val == 0) continue;
-      int r = rows_are_ids ? pos_of_id(static_cast<unsigned>(r0)) : static_cast<int>(r0);
+      int r = rows_are_ids ? pos_of_row(static_cast<unsigned>(r0)) : static_cast<int>(r0);
       if (r < 0) { failed.push_back("column has an entry in a row that is no live cell"); continue; }
       if (val % g_p == 0 || val < 0 || val >= g_p) { failed.push_back("column stores a non-reduced coefficient"); continue; }
       v[r] = val;
@@ -205,7 +245,7 @@ struct PmModel {
     if constexpr (Opt::column_type != Column_types::HEAP && Opt::column_type != Column_types::VECTOR) {  // both clean lazily
       SparseVec w;
       for (auto& e : col) {
-        int r = rows_are_ids ? pos_of_id(e.get_row_index()) : static_cast<int>(e.get_row_index());
+        int r = rows_are_ids ? pos_of_row(e.get_row_index()) : static_cast<int>(e.get_row_index());
         int val = 1;
         if constexpr (!Opt::is_z2) val = static_cast<int>(e.get_element());
         if (w.count(r)) failed.push_back("column lists a row twice");
@@ -216,9 +256,22 @@ struct PmModel {
     if (const_cast<Col&>(col).is_empty() != v.empty()) failed.push_back("is_empty disagrees with the column content");
     return v;
   }
+  // Vine-enabled boundary-type matrices apply row swaps lazily: the raw row indices stored in a column may be
+  // stale, the public is_zero_entry translates them.  (Z2 only, so a non-zero entry is 1.)
+  SparseVec read_R_by_entries(unsigned ci) {
+    SparseVec v;
+    for (int r = 0; r < static_cast<int>(rowids.size()); ++r) if (!m->is_zero_entry(ci, rowids[r])) v[r] = 1;
+    return v;
+  }
+  SparseVec read_U_by_entries(unsigned ci) {
+    SparseVec v;
+    if constexpr (is_ru && pos_indexed)
+      for (int r = 0; r < static_cast<int>(cells.size()); ++r) if (!m->is_zero_entry(ci, static_cast<unsigned>(r), false)) v[r] = 1;
+    return v;
+  }
   SparseVec boundary_of(int pos) const {
     SparseVec v;
-    for (auto& e : cells[pos].bd) v[pos_of_id(e.first)] = e.second;
+    for (auto& e : cells[pos].bd) v[pos_of_uid(e.first)] = e.second;
     return v;
   }
   SparseVec boundary_of_chain(const SparseVec& c) const {
@@ -261,7 +314,8 @@ struct PmModel {
       std::map<int, int> piv_to_col;
       for (int i = 0; i < n; ++i) {
         unsigned ci = col_index(i);
-        SparseVec R = read_col(m->get_column(ci), failed);
+        SparseVec R;
+        if constexpr (Opt::has_vine_update) R = read_R_by_entries(ci); else R = read_col(m->get_column(ci), failed);
         if (g_log_matrices) Rj.push_back(sv_json(R));
         int low = R.empty() ? -1 : R.rbegin()->first;
         if (low >= 0) {
@@ -270,7 +324,7 @@ struct PmModel {
         }
         if (m->is_zero_column(ci) != R.empty()) failed.push_back("is_zero_column disagrees with the column content");
         auto pv = m->get_pivot(ci);
-        int pvpos = (pv == static_cast<decltype(pv)>(-1)) ? -1 : pos_of_id(pv);
+        int pvpos = (pv == static_cast<decltype(pv)>(-1)) ? -1 : pos_of_row(pv);
         if (pvpos != low) failed.push_back("get_pivot is not the lowest row of the column");
         if constexpr (is_ru) {
           if (low >= 0) {
@@ -288,7 +342,10 @@ struct PmModel {
       if constexpr (is_ru && pos_indexed) {
         // exposed factor M: Z2: B = R . M^T ; Zp: R = B . M   (RU_matrix.h, _reduce_column_by)
         std::vector<SparseVec> Rs, Ms;
-        for (int i = 0; i < n; ++i) { Rs.push_back(read_col(m->get_column(col_index(i), true), failed)); Ms.push_back(read_col(m->get_column(col_index(i), false), failed, false)); }
+        for (int i = 0; i < n; ++i) {
+          if constexpr (Opt::has_vine_update) { Rs.push_back(read_R_by_entries(col_index(i))); Ms.push_back(read_U_by_entries(col_index(i))); }
+          else { Rs.push_back(read_col(m->get_column(col_index(i), true), failed)); Ms.push_back(read_col(m->get_column(col_index(i), false), failed, false)); }
+        }
         for (int i = 0; i < n; ++i) {
           if (g_log_matrices) Uj.push_back(sv_json(Ms[i]));
           if (!Ms[i].count(i)) failed.push_back("U has a zero diagonal entry");
